@@ -1,4 +1,5 @@
 #!/bin/bash
+export VERIF_NO_EVIDENCE=1
 # usage: mut.sh <prop> <file-relative-to-repo> <sed-expr>   -- apply, run check, restore (debugging aid)
 prop=$1; f=/repo/$2; expr=$3
 cp $f /tmp/mut.bak
